@@ -23,6 +23,8 @@ case $cache in
   c128)  L1=8192;  L2=65536;   L3=131072;;
   c256)  L1=16384; L2=131072;  L3=262144;;
   c4m)   L1=16384; L2=524288;  L3=4194304;;
+  ceq)   L1=65536; L2=65536;   L3=65536;;     # all three levels equal (admissible: L1 <= L2 <= L3)
+  cl1)   L1=262144; L2=262144; L3=2097152;;  # unusually large L1
   # below the range of real machines (the properties do not quantify over it): used only to bind the recursive models to
   # the code on matrices small enough for TLC (PLE recursion above 512 words, TRSM recursion above 64 rows, Strassen cutoff 128)
   tiny)  L1=1024;  L2=2048;    L3=4096;;
